@@ -746,8 +746,8 @@ struct TemplateCore {
                 }
 
                 case TagPatterns::LoopID: {
-                    if (is_child) {
-                        // Inside an inline tag only inline tags are sub tags: '<loop' is text there.
+                    if (is_child || isNameChar(content, finder.GetOffset(), length)) {
+                        // Inside an inline tag only inline tags are sub tags: '<loop' is text there; so is '<loops>'.
                         finder.Next();
                         break;
                     }
@@ -808,8 +808,8 @@ struct TemplateCore {
                 }
 
                 case TagPatterns::IfID: {
-                    if (is_child) {
-                        // Inside an inline tag only inline tags are sub tags: '<if' is text there.
+                    if (is_child || isNameChar(content, finder.GetOffset(), length)) {
+                        // Inside an inline tag only inline tags are sub tags: '<if' is text there; so is '<iframe>'.
                         finder.Next();
                         break;
                     }
@@ -861,6 +861,13 @@ struct TemplateCore {
                 }
 
                 case TagPatterns::ElseID: {
+                    if (isNameChar(content, finder.GetOffset(), length) &&
+                        (content[finder.GetOffset()] != TagPatterns::ElseIfChar)) {
+                        // '<elsewhere>' is text ('<elseif' is a tag).
+                        finder.Next();
+                        break;
+                    }
+
                     if (parent_storage.IsNotEmpty()) {
                         Array<TagBit> *tmp     = *(parent_storage.Last());
                         TagBit        *tag_bit = tmp->Last();
@@ -929,6 +936,18 @@ struct TemplateCore {
             storage->Drop(SizeT{1});
             parent_storage.Drop(SizeT{1});
         }
+    }
+
+    // A tag name goes on with letters, digits, '-' or '_': '<iframe>', '<loops>' and '<elsewhere>' are not '<if', '<loop', '<else'.
+    inline static bool isNameChar(const Char_T *content, SizeT offset, SizeT length) noexcept {
+        if (offset < length) {
+            const Char_T ch = content[offset];
+
+            return (((ch >= 'a') && (ch <= 'z')) || ((ch >= 'A') && (ch <= 'Z')) || ((ch >= '0') && (ch <= '9')) ||
+                    (ch == '-') || (ch == '_'));
+        }
+
+        return false;
     }
 
     inline static void checkLoopVariable(const Char_T *content, VariableTag &tag, const LoopTag *loop_tag) noexcept {
